@@ -992,6 +992,9 @@ impl Wallet {
 
     let amount = decimal.to_integer(entry.divisibility)?;
 
+    // an edict amount of zero means "all remaining runes"
+    ensure!(amount > 0, "rune amount must be greater than zero");
+
     let inscribed_outputs = self
       .inscriptions()
       .keys()
